@@ -23,7 +23,7 @@ static void fsv_throw(void){
 #define FSV_NONNULL(p) ((void)0)
 #endif
 #define THROWING(sym) 
-#ifdef FSV_EXTVAR___dso_handle
+#if defined(FSV_EXTVAR___dso_handle) && defined(__CPROVER__)   /* natively crtbegin provides it */
 FSV_EXTVAR___dso_handle()
 #endif
 #ifdef FSV_EXTVAR___libc_single_threaded
